@@ -105,3 +105,59 @@ Theorem C20_map_assoc_refuted_witness :
                    ∧ mv_merge (mv_merge a b) c ≠ mv_merge a (mv_merge b c).
 Proof. exact map_T1_assoc_refuted. Qed.
 Print Assumptions C20_map_assoc_refuted_witness.
+
+(** * Map<K, Orswot<M>>: equal knowledge gives Leibniz-equal states and no residue, in the fragment
+    finding T3 leaves (op-based replication, per-actor delivery with duplicates, no update carrying a
+    nested remove): proofs/MapOrswotEq.v *)
+From Crdt Require Import proofs.VClock spec.System spec.OrswotSpec spec.MapSpec spec.MapSystem spec.MapOrswotSpec
+  proofs.MapOrswot proofs.MapOrswotPA proofs.MapOrswotEq.
+
+Theorem C20_mapor_state_eq (H : list (oprec (mop oop))) (s1 s2 : cmap orswot) (K : gset nat) :
+  mohist_ok_pa H -> moreach_pa H s1 K -> moreach_pa H s2 K -> s1 = s2.
+Proof. exact (mapor_state_eq_pa H s1 s2 K). Qed.
+Print Assumptions C20_mapor_state_eq.
+
+(** once every remove in the knowledge is covered by the map clock, nothing of the removed data is
+    left: no pending remove, no empty entry or member clock, the hidden nested clock equals the entry
+    clock, a key whose updates are all covered is absent *)
+Theorem C20_mapor_no_residue (H : list (oprec (mop oop))) (s : cmap orswot) (K : gset nat) :
+  mohist_ok_pa H -> moreach_pa H s K ->
+  (forall c ks, MRm c ks ∈ known_ops H K -> vle c (mclock s) = true) ->
+  mdeferred s = ∅ /\
+  (forall k e, mentries s !! k = Some e ->
+     eclock e <> ∅ /\ odeferred (eval e) = ∅ /\
+     (forall m mc, oentries (eval e) !! m = Some mc -> mc <> ∅) /\
+     oclock (eval e) = eclock e) /\
+  (forall k, mlive_dots (known_ops H K) k = [] -> mentries s !! k = None).
+Proof. exact (mapor_no_residue_pa H s K). Qed.
+Print Assumptions C20_mapor_no_residue.
+
+(** the premise is exactly "nothing is pending" *)
+Theorem C20_mapor_pending_empty_iff (H : list (oprec (mop oop))) (s : cmap orswot) (K : gset nat) :
+  mohist_ok_pa H -> moreach_pa H s K ->
+  (mdeferred s = ∅ <-> forall c ks, MRm c ks ∈ known_ops H K -> vle c (mclock s) = true).
+Proof. exact (mapor_pending_empty_iff_pa H s K). Qed.
+Print Assumptions C20_mapor_pending_empty_iff.
+
+Theorem C20_mapor_nonvacuous :
+  let o0 : mop oop := MUp (Dot 1 1) 7 (OAdd (Dot 1 1) [10; 11]) in
+  let o1 : mop oop := MRm {[1 := 1]} {[7]} in
+  let o2 : mop oop := MUp (Dot 3 1) 7 (OAdd (Dot 3 1) [10; 12]) in
+  let H : list (oprec (mop oop)) := [OpRec 1 o0 ∅; OpRec 2 o1 (∅ ∪ {[0%nat]}); OpRec 3 o2 ∅] in
+  let K : gset nat := ∅ ∪ {[2%nat]} ∪ {[1%nat]} ∪ {[0%nat]} in
+  let x1 := mapply orswot_valops (mapply orswot_valops mnew o2) o1 in
+  let x := mapply orswot_valops x1 o0 in
+  let y := mapply orswot_valops (mapply orswot_valops (mapply orswot_valops mnew o0) o1) o2 in
+  mohist_ok_pa H /\ moreach_pa H x K /\ moreach_pa H y K /\
+  x = y /\
+  x = CMap {[1 := 1; 3 := 1]}
+           {[7 := MEntry {[3 := 1]}
+                    (Orswot {[3 := 1]} {[10 := {[3 := 1]}; 12 := {[3 := 1]}]} ∅)]} ∅ /\
+  (forall c ks, MRm c ks ∈ known_ops H K -> vle c (mclock x) = true) /\
+  mlive_dots (known_ops H K) 7 = [Dot 3 1] /\
+  mlive_dots (known_ops H K) 8 = [] /\ mentries x !! 8 = None /\
+  moreach_pa H x1 (∅ ∪ {[2%nat]} ∪ {[1%nat]}) /\
+  MRm {[1 := 1]} {[7]} ∈ known_ops H (∅ ∪ {[2%nat]} ∪ {[1%nat]}) /\
+  vle {[1 := 1]} (mclock x1) = false /\ mdeferred x1 <> ∅.
+Proof. exact mapor_eq_example. Qed.
+Print Assumptions C20_mapor_nonvacuous.
